@@ -16,7 +16,8 @@ from ..core import pmap
 from ..puppet import Puppet, NotQueueable
 from ..world import SEAMS, Pair, World, load_cred
 from tlslite import errors as E
-from tlslite.constants import CipherSuite as CS
+from tlslite.constants import CipherSuite as CS, SignatureScheme, \
+    ExtensionType
 from tlslite.checker import Checker
 
 LEVEL = "fault_enumeration"
@@ -806,6 +807,208 @@ def ticket_identity_case(item):
     return name, sig, fails
 
 
+# ------------------------------------------------- delegated credentials
+DC_KEYS = {
+    "p256": ("serverDelCredSECP256r1Key.pem", "serverDelCredSECP256r1Pub.pem",
+             "ecdsa_secp256r1_sha256"),
+    "p384": ("serverDelCredSECP384r1Key.pem", "serverDelCredSECP384r1Pub.pem",
+             "ecdsa_secp384r1_sha384"),
+    "ed25519": ("serverDelCredEd25519Key.pem", "serverDelCredEd25519Pub.pem",
+                "ed25519"),
+}
+# leaf credential -> (delegation signature scheme, rogue credential of the
+# same key type that the attacker really owns)
+DC_LEAVES = {"ecdsa": ("ecdsa_secp256r1_sha256", "c_ecdsa"),
+             "rsa": ("rsa_pss_rsae_sha256", "c_rsa")}
+DC_SHAPES = ["honest", "honest-chain2", "dc-on-entry1", "dc-on-entry1-and-0",
+             "issuer-other-key", "issuer-other-cert", "cv-other-key",
+             "cv-leaf-key", "sig-flip-first", "sig-flip-mid", "sig-flip-last",
+             "two-dc-exts", "client-not-offering", "dc-alg-not-offered"]
+
+
+def _dc_key(name):
+    from tlslite.utils.keyfactory import parsePEMKey
+    from tlslite.utils.pem import dePem
+    import os
+    keyf, pubf, alg = DC_KEYS[name]
+    with open(os.path.join(W.TESTS, keyf)) as f:
+        key = parsePEMKey(f.read(), private=True, implementations=["python"])
+    with open(os.path.join(W.TESTS, pubf)) as f:
+        pub = dePem(f.read(), "PUBLIC KEY")
+    return key, pub, getattr(SignatureScheme, alg)
+
+
+def _make_dc(cert, key, deleg_alg, dc_pub, dc_alg):
+    from tlslite.x509 import Credential, DelegatedCredential
+    from tlslite.handshakesettings import DC_VALID_TIME
+    from tlslite.constants import HashAlgorithm
+    cred_bytes = Credential.marshal(DC_VALID_TIME, dc_alg, dc_pub)
+    cred = Credential(valid_time=DC_VALID_TIME,
+                      dc_cert_verify_algorithm=dc_alg,
+                      subject_public_key_info=dc_pub, bytes=cred_bytes)
+    to_sign = DelegatedCredential.compute_certificate_dc_sig_context(
+        cert.bytes, cred_bytes, deleg_alg)
+    if deleg_alg[1] == 3:       # ecdsa
+        sig = key.hashAndSign(to_sign, None,
+                              HashAlgorithm.toRepr(deleg_alg[0]), None)
+    else:
+        sig = key.hashAndSign(to_sign, "pss", "sha256", 32)
+    return DelegatedCredential(cred=cred, algorithm=deleg_alg,
+                               signature=sig)
+
+
+def dc_cases(tier):
+    out = []
+    for leaf in DC_LEAVES:
+        for dck in DC_KEYS:
+            if tier == "quick" and (leaf, dck) not in (
+                    ("ecdsa", "p256"), ("ecdsa", "ed25519"), ("rsa", "p256"),
+                    ("rsa", "p384")):
+                continue
+            for shape in DC_SHAPES:
+                out.append((leaf, dck, shape))
+    return out
+
+
+def dc_case(item):
+    """RFC 9345: the server is attributed chain[0] on the strength of a
+    CertificateVerify made with a delegated key only if that key was
+    delegated by chain[0]'s own key, on chain[0]'s own entry."""
+    r = dc_run(item)
+    if r is None:
+        (leaf, dck, shape), seed = item
+        return "dc/%s/%s/%s" % (leaf, dck, shape), None, []
+    name, shape, accept, pair, out, chain = r
+    sig = ("dc", shape, out["C"].sig()[:3])
+    fails = []
+    if accept:
+        if out["C"].status != "ok" or out["S"].status != "ok":
+            fails.append("honest delegated-credential handshake failed: %r / "
+                         "%r" % (out["C"].sig(), out["S"].sig()))
+        else:
+            if W.chain_fp(pair.c.session.serverCertChain) != \
+                    W.chain_fp(chain):
+                fails.append("client recorded another chain than was sent")
+            pair.write("C", b"ping")
+            r = pair.read("S", None, 4)
+            if r.status != "ok" or bytes(r.value) != b"ping":
+                fails.append("data after DC handshake: %r" % (r.sig(),))
+    else:
+        fails += judge(pair, out, "C", "delegated credential shape %s" %
+                       shape)
+    return name, sig, fails
+
+
+def dc_run(item, prepare=None):
+    """One delegated-credential handshake; (name, shape, accept, pair, out,
+    chain sent) or None when the shape does not exist for these keys."""
+    (leaf, dck, shape), seed = item
+    from tlslite.x509certchain import X509CertChain
+    from tlslite.extensions import DelegatedCredentialCertExtension, \
+        DelegatedCredentialExtension
+    name = "dc/%s/%s/%s" % (leaf, dck, shape)
+    deleg_name, rogue_name = DC_LEAVES[leaf]
+    deleg_alg = getattr(SignatureScheme, deleg_name)
+    lchain, lkey = load_cred(leaf)
+    rchain, rkey = load_cred(rogue_name)
+    dc_key, dc_pub, dc_alg = _dc_key(dck)
+    other_dck = [k for k in DC_KEYS if k != dck][0]
+    accept = shape in ("honest", "honest-chain2")
+    chain = X509CertChain(list(lchain.x509List))
+    issuer_cert, issuer_key = lchain.x509List[0], lkey
+    sign_cert = issuer_cert
+    srv_dc_key = dc_key
+    entry = [0]
+    n_ext = 1
+    if shape == "honest-chain2":
+        chain = X509CertChain(list(lchain.x509List) + list(rchain.x509List))
+    elif shape in ("dc-on-entry1", "dc-on-entry1-and-0"):
+        # the attacker owns the rogue certificate only
+        chain = X509CertChain(list(lchain.x509List) + list(rchain.x509List))
+        issuer_cert, issuer_key = rchain.x509List[0], rkey
+        sign_cert = issuer_cert
+        entry = [1] if shape == "dc-on-entry1" else [1, 0]
+    elif shape == "issuer-other-key":
+        issuer_key = rkey
+    elif shape == "issuer-other-cert":
+        sign_cert = rchain.x509List[0]
+    elif shape == "cv-other-key":
+        if dck == "ed25519":
+            from tlslite.utils.keyfactory import parsePEMKey
+            srv_dc_key = load_cred("ed25519")[1]
+        else:
+            srv_dc_key = load_cred({"p256": "c_ecdsa",
+                                    "p384": "ecdsa384"}[dck])[1]
+    elif shape == "cv-leaf-key":
+        if not (leaf == "ecdsa" and dck == "p256"):
+            return None
+        srv_dc_key = lkey
+    elif shape == "two-dc-exts":
+        n_ext = 2
+    SEAMS.reset(seed, name)
+    SEAMS.current = "S"
+    dc = _make_dc(sign_cert, issuer_key, deleg_alg, dc_pub, dc_alg)
+    if shape.startswith("sig-flip"):
+        where = shape.split("-")[-1]
+        b = bytearray(dc.signature)
+        i = {"first": 0, "mid": len(b) // 2, "last": len(b) - 1}[where]
+        b[i] ^= 1
+        dc.signature = b
+    SEAMS.current = "main"
+    pair = Pair(World())
+    if prepare:
+        prepare(pair)
+    sc = S.Scen(name, version=(3, 4), cred=leaf)
+    st_c, st_s = sc.client_settings(), sc.server_settings()
+    offered = [dc_alg]
+    if shape == "client-not-offering":
+        offered = []
+    elif shape == "dc-alg-not-offered":
+        offered = [DC_KEYS[other_dck][2] and getattr(
+            SignatureScheme, DC_KEYS[other_dck][2])]
+    st_c.dc_sig_algs = list(offered)
+    srv = pair.s
+    orig_cert = srv._create_cert_msg
+
+    def create_cert_msg(peer, request_msg, algos, cert_chain, cert_type,
+                        cert_context=b'', version=(3, 2), ext=None):
+        if ext is not None and peer == "server":
+            exts0 = list(ext[0])
+            for e in ext:
+                del e[:]
+            for k in entry:
+                if k < len(ext):
+                    ext[k].extend(exts0 * n_ext)
+        return orig_cert(peer, request_msg, algos, cert_chain, cert_type,
+                         cert_context, version, ext)
+    srv._create_cert_msg = create_cert_msg
+    if shape in ("client-not-offering", "dc-alg-not-offered"):
+        # a server that sends the credential although the client did not
+        # ask for it / for this algorithm: its view of the ClientHello is
+        # doctored (the transcript is not)
+        orig13 = srv._serverTLS13Handshake
+
+        def hs13(settings, clientHello, *a, **k):
+            clientHello.extensions[:] = [
+                e for e in clientHello.extensions
+                if e.extType != ExtensionType.delegated_credential]
+            clientHello.extensions.insert(
+                0, DelegatedCredentialExtension().create([dc_alg]))
+            return orig13(settings, clientHello, *a, **k)
+        srv._serverTLS13Handshake = hs13
+    SEAMS.current = "C"
+    checker = Checker(x509Fingerprint=lchain.x509List[0].getFingerprint())
+    cg = pair.c.handshakeClientCert(settings=st_c, async_=True,
+                                    checker=checker)
+    SEAMS.current = "S"
+    sg = srv.handshakeServerAsync(certChain=chain, privateKey=None,
+                                  dc_key=srv_dc_key, del_cred=dc,
+                                  settings=st_s)
+    SEAMS.current = "main"
+    out = pair.handshake(cg, sg, max_steps=60000)
+    return name, shape, accept, pair, out, chain
+
+
 def run(res, tier, seed):
     res.coverage["rule"] = (
         "proof sites (ServerKeyExchange signature, client CertificateVerify, "
@@ -815,7 +1018,10 @@ def run(res, tier, seed):
         "at selected/all positions, empty, one short/long, zeros, ones, "
         "proof from another handshake, altered scheme id, omitted); chain A "
         "with key B for 7 key pairs x versions x roles; wrong SRP password; "
-        "Checker mismatch; scheme not offered by the verifier; distinct by "
+        "Checker mismatch; scheme not offered by the verifier; delegated "
+        "credentials (leaf RSA/ECDSA x credential key P-256/P-384/Ed25519 x "
+        "14 shapes: entry, issuer, CertificateVerify key, signature flips, "
+        "duplicates, unsolicited); distinct by "
         "(site, corruption)")
     st = sites(tier)
     n = 0
@@ -870,7 +1076,25 @@ def run(res, tier, seed):
     res.section("ticket_identity", cases=nt, dimensions=(
         "ticket hash x offered suites x knows secret x ticket age x own "
         "certificate x external PSK"))
-    res.coverage["distinct_nontrivial"] = n + nm + r["n"] + nt
+    dcs = dc_cases(tier)
+    nd = 0
+    acc = 0
+    for (name, sig, fails) in pmap(dc_case, [(c, seed) for c in dcs]):
+        if sig is None:
+            continue
+        nd += 1
+        res.count()
+        res.outcome(tuple(sig))
+        acc += sig[2][0] == "ok"
+        for f in fails:
+            res.violation({"site": "delegated-credential",
+                           "shape": name.split("/")[-1], "what": f[:50]},
+                          {"case": name, "fail": f},
+                          {"delegated_credential": name})
+    res.section("delegated_credentials", cases=nd, accepted=acc,
+                shapes=DC_SHAPES, leaves=sorted(DC_LEAVES),
+                credential_keys=sorted(DC_KEYS))
+    res.coverage["distinct_nontrivial"] = n + nm + r["n"] + nt + nd
     res.assumptions.append("the prover's own sign-then-verify self-check is "
                            "bypassed by corrupting the serialised message, "
                            "not the key object")
